@@ -61,6 +61,8 @@ def p_C06(res, facts, tier):
 def p_C18(res, facts, tier):
     from .rules import midi
     midi.check_routing(res, facts)
+    # the documented values are what the getters return: each getter is the field itself, read-only
+    midi.check_level_getters(res, facts)
 
 
 def p_C01(res, facts, tier):
@@ -257,6 +259,8 @@ def _apply_and_analyse(prop, spec, patch):
         cres = Result(prop)
         try:
             spec['fn'](cres, cfacts, 'quick')
+            from .rules import api as _api
+            _api.check_api(cres, cfacts, prop)
         except (InterpError, FactsError) as e:
             cres.ob('ANALYSIS', 'control', False, str(e))
         return ('ran', cres.violations(), ckey)
@@ -335,6 +339,8 @@ def main(argv):
         _common.PANIC_POLICY[0] = 'judge' if prop == 'C17' else 'skip'
         _common.PANICS_LEFT_TO_C17[0] = 0
         spec['fn'](res, facts, tier)
+        from .rules import api as _api
+        _api.check_api(res, facts, prop)
         if _common.PANICS_LEFT_TO_C17[0]:
             res.extra['panicking_paths_not_judged_here'] = '%d abstract path(s) end in an explicit panic / failed assertion; "no operation panics" is decided by C17 (R-PANIC), this property is decided on the returning paths' % _common.PANICS_LEFT_TO_C17[0]
     except FactsError as e:
